@@ -96,6 +96,51 @@ theorem supported_transition_decodes (e : Entry) (he : e ∈ appTable) (hx : ¬ 
     simp only [hc, Bool.and_eq_true, Bool.not_eq_true'] at ha
     exact ⟨c, rfl, ha.1, agree_decodes e.app c ha.2 vs bs h⟩
 
+/-! ### roles: the n-th value means the same thing on both sides -/
+
+/-- entry `e`: the roles taken from the packed expressions describe its schema, and position by position they are the
+roles of the members the checker-side constructor of its kind stores the unpacked values in -/
+def rolesAgree (e : Entry) : Bool :=
+  match checkerSchema e.kind, checkerRoles e.kind with
+  | some c, some cr => rolesShape e.app e.roles && rolesShape c cr && rolesCompatible e.roles cr
+  | _, _ => false
+
+/-- finite table: `decide`.  For every (observer, kind) entry outside the message-queue observers, the expression the
+application packs at position n names the same thing (mutex, condvar, semaphore, barrier, comm, mailbox, owner, sender,
+receiver, target, child, capacity, granted, timeout, tag, bounds, call location) as the member the checker stores the
+n-th unpacked value in; for TESTANY / WAITANY, member kind by member kind.  Two fields of equal wire type that are
+packed in one order and unpacked in the other make `schemas_agree_partial` hold and this theorem fail. -/
+theorem roles_agree : ∀ e ∈ appTable, ¬ e.observer ∈ excluded → rolesAgree e = true := by decide
+
+/-- **End to end with roles**: as `supported_transition_decodes`, and moreover the member in which the checker stores
+the n-th decoded value has the role of the n-th expression the application packed (for TESTANY / WAITANY: member kind
+by member kind).  `supported_transition_decodes` + `roles_agree`. -/
+theorem supported_transition_decodes_in_role (e : Entry) (he : e ∈ appTable) (hx : ¬ e.observer ∈ excluded)
+    (vs : List FVal) (bs : List Nat) (h : encode e.app vs = some bs) :
+    ∃ c cr, checkerSchema e.kind = some c ∧ checkerRoles e.kind = some cr ∧ decode c bs = some (vs, []) ∧
+      rolesShape c cr = true ∧ rolesShape e.app e.roles = true ∧ rolesCompatible e.roles cr = true := by
+  obtain ⟨c, hc, _, hd⟩ := supported_transition_decodes e he hx vs bs h
+  have hr := roles_agree e he hx
+  unfold rolesAgree at hr
+  rw [hc] at hr
+  cases hcr : checkerRoles e.kind with
+  | none => simp [hcr] at hr
+  | some cr =>
+    simp only [hcr, Bool.and_eq_true] at hr
+    exact ⟨c, cr, hc, rfl, hd, hr.1.2, hr.1.1, hr.2⟩
+
+/-- sanity of the definition on the witness shape of the class: CONDVAR_WAIT packed as (mutex, cond, granted, timeout)
+has the right types and the wrong roles -/
+theorem roles_swapped_rejected :
+    let e : Entry := { app_ConditionVariableObserver_CONDVAR_WAIT with
+                       roles := [.prim "mutex", .prim "cond", .prim "granted", .prim "timeout"] }
+    agrees e = true ∧ rolesAgree e = false := by decide
+
+-- non-vacuity: CONDVAR_WAIT has two fields of the same wire type with different roles; a constant is the only wildcard
+example : app_ConditionVariableObserver_CONDVAR_WAIT.roles = [.prim "cond", .prim "mutex", .prim "granted", .prim "timeout"] ∧
+    app_ConditionVariableObserver_CONDVAR_WAIT.app = [.prim .u32, .prim .u32, .prim .bool, .prim .bool] := by decide
+example : roleOk "_const" "granted" = true ∧ roleOk "granted" "_const" = false ∧ roleOk "mutex" "cond" = false := by decide
+
 -- non-vacuity: a MUTEX_WAIT message (mutex 7, owner 3) is an entry of the table, outside the exclusion, and encodes
 example : app_MutexAcquisitionObserver_MUTEX_WAIT ∈ appTable := by simp [appTable]
 example : ¬ app_MutexAcquisitionObserver_MUTEX_WAIT.observer ∈ excluded ∧
